@@ -114,6 +114,16 @@ def make_case(ctx, g):
     else:
         b = DocBuilder(g, w, repeat_id=0.25, malformed=0.0, reinstant=0.3)
     d, scopes = b.random_document(n_records=g.rng.randint(1, 7))
+    if g.chance(0.15) and len(scopes) > 1:
+        # a bundle that cannot be unified (two statements of one activity that disagree on its start time): unified(), the graph
+        # and the DOT drawing of the document meet a refusal half way; the document must come out of it untouched
+        import datetime as _dt
+        from prov.constants import PROV as _PROV
+        c_ = g.choice(scopes[1:])
+        q_ = QualifiedName(Namespace("ex", "http://example.org/"), "clash%d" % g.rng.randint(0, 9))
+        w.new_record(c_, "Activity", q_, [(_PROV["startTime"], _dt.datetime(2020, 1, 1, 8, 0, 0))])
+        w.new_record(c_, "Activity", q_, [(_PROV["startTime"], _dt.datetime(2020, 1, 2, 9, 30, 0))])
+        ctx.count("bundle-that-cannot-be-unified")
     if g.chance(0.15) and b.cross_kind_cluster(g.choice(scopes)):
         ctx.count("one-identifier-two-merged-kinds")
     doc = w.conts[d]
